@@ -186,6 +186,12 @@ int main(int argc, char** argv)
                 if (op.contains("bind"))
                 {
                     json v = op.contains("bind_field") ? ret.at(op["bind_field"].get<std::string>()) : ret;
+                    if (op.contains("bind_index"))
+                    {
+                        size_t k = op["bind_index"].get<size_t>();
+                        if (!v.is_array() || k >= v.size()) throw harness_error("bind_index out of range");
+                        v = v[k];
+                    }
                     if (op.value("bind_hex", false)) v = hex_of(v.get<std::string>());
                     vars[op["bind"].get<std::string>()] = v;
                 }
